@@ -31,11 +31,16 @@ Theorems for every reachable world (no bound):
 * `first_kill_live_iff` — for the first kill of a chain, at ANY point of ANY height: the validator
   goes on committing iff the kill is outside the one window of the first height.
 
+* `restart_starts`, `torn_tail_alone_is_harmless` — the WAL of a reachable world decodes, also
+  with a partial last line.
+
 NOT a theorem, because the unchanged code violates it: "it continues committing".
 `recovers_statement` is the full statement; `first_height_counterexample` and
 `no_marker_counterexample` refute it on the two histories the harness replays on the real node
-(known findings); `recovers_partial` proves it under the exact guard: the WAL holds the marker of
-the resumed height, or nothing beyond the round-0 proposal was signed at that height.
+(known findings), `torn_record_counterexample` on a third (a kill inside a WAL write, then a
+second kill: the node does not start any more); `recovers_partial` proves it under the exact
+guard: the WAL holds the marker of the resumed height, or nothing beyond the round-0 proposal was
+signed at that height (kills between durable steps; each WAL record written atomically).
 -/
 namespace GnoVerif.C33
 
@@ -64,6 +69,18 @@ theorem restart_never_fails {d : Disk} (h : Reach d) :
     ∃ evs c', newNode d.toCore = .ok (evs, c') := by
   obtain ⟨evs, hn, _⟩ := newNode_of_inv (reach_inv h)
   exact ⟨evs, _, hn⟩
+
+/-- …and `ConsensusState.OnStart` then finds a WAL it can decode: a history of kills BETWEEN durable
+steps never leaves a partial line (`torn_record_counterexample` is about kills INSIDE a write). -/
+theorem restart_starts {d : Disk} (h : Reach d) (evs : List Ev) : startOK (applyAll d evs) = true :=
+  startOK_of_no_torn (applyAll_no_torn (reach_no_torn h))
+
+/-- A kill inside the write of a WAL record leaves a partial last line; that world still starts
+(the reader takes a partial last line for the end of the log — C38's truncation theorem). -/
+theorem torn_tail_alone_is_harmless {d : Disk} (h : Reach d) : startOK (tornKill d) = true :=
+  startOK_tornKill (reach_no_torn h)
+
+example : Reach worldT0 ∧ startOK (applyAll worldT1 hsT) = true := ⟨reach_worldT0, worldT1_starts.1⟩
 
 /-- After the handshake the block store, the state and the application agree on the height of the
 block store at the kill (no committed block is lost, none is invented), and on the application
@@ -142,19 +159,19 @@ example : Reach w2 ∧ w2.toCore.synced ∧ w2.stRec = true ∧ Heights w2 (h2Ev
 (single) validator goes on committing. -/
 def recovers_statement : Prop :=
   ∀ d, Reach d → ∃ evs c', newNode d.toCore = .ok (evs, c') ∧ c'.synced ∧ c'.st = d.store ∧
-    c'.stHash = chainHash d.blocks ∧ live (applyAll d evs) = true
+    c'.stHash = chainHash d.blocks ∧ startOK (applyAll d evs) = true ∧ live (applyAll d evs) = true
 
 /-- What is true of the code as it is: the restart converges, and the validator goes on if the
 WAL holds the marker of the height it resumes (and not the next one), or if it signed nothing at
 that height beyond the round-0 proposal. -/
 theorem recovers_partial {d : Disk} (h : Reach d) :
     ∃ evs c', newNode d.toCore = .ok (evs, c') ∧ c'.synced ∧ c'.st = d.store ∧
-      c'.stHash = chainHash d.blocks ∧
+      c'.stHash = chainHash d.blocks ∧ startOK (applyAll d evs) = true ∧
       (((hasMark d.wal (d.store + 1) = true ∧ hasMark d.wal (d.store + 2) = false) ∨
         d.pv.le ⟨d.store + 1, 0, 1⟩ = true) → live (applyAll d evs) = true) := by
   obtain ⟨evs, c', hn⟩ := restart_never_fails h
   obtain ⟨a, b, _, e, _⟩ := handshake_converges h hn
-  refine ⟨evs, c', hn, a, b, e, ?_⟩
+  refine ⟨evs, c', hn, a, b, e, restart_starts h evs, ?_⟩
   obtain ⟨hw, hp⟩ := applyAll_db_log (d := d) (newNode_db (reach_inv h) hn)
   have hst : (applyAll d evs).st = d.store := by
     obtain ⟨evs0, hn0, g⟩ := newNode_of_inv (reach_inv h)
@@ -216,12 +233,15 @@ theorem first_kill_live_iff {run p : List Ev} (hrun : Heights w1 run)
       left; omega
     rw [hp1]; simp; omega
 
+example : Heights w1 (h1Evs ++ []) ∧ killA <+: genesisHs ++ walOpenEvs w0 ++ (h1Evs ++ []) :=
+  ⟨Heights.height w1 [] 0 [] (Heights.done _), List.take_prefix _ _⟩
+
 /-- FINDING (first height): killed in height 1 after the prevote was signed and before the block
 reached the store, the validator never commits again: the marker `1` is never in the WAL (it
 starts with `0`, `finalizeCommit(h)` writes `h+1`, `catchupReplay(1)` looks for `1`). -/
 theorem first_height_counterexample : ¬ recovers_statement := by
   intro h
-  obtain ⟨evs, c', hn, _, _, _, hl⟩ := h worldA reach_worldA
+  obtain ⟨evs, c', hn, _, _, _, _, hl⟩ := h worldA reach_worldA
   rw [worldA_newNode] at hn; cases hn
   rw [worldA_not_live] at hl; cases hl
 
@@ -235,5 +255,15 @@ theorem no_marker_counterexample :
   intro evs c' hn
   rw [worldB_newNode] at hn; cases hn
   exact worldB_not_live
+
+/-- FINDING (torn record): a kill INSIDE the write of a WAL record, a restart (which works and
+goes on), and a second kill in the same height: the restarted node appended to the partial line,
+`catchupReplay` hits an undecodable record, `OnStart` returns the error — the node does not start
+again.  (`Proc (tornKill d) pre`: what the restarted process did before kill #2.) -/
+theorem torn_record_counterexample :
+    ∃ d pre, Reach d ∧ Proc (tornKill d) pre ∧
+      ∃ evs c', newNode (applyAll (tornKill d) pre).toCore = .ok (evs, c') ∧
+        startOK (applyAll (applyAll (tornKill d) pre) evs) = false :=
+  ⟨worldT0, killT2, reach_worldT0, proc_worldT2, _, _, worldT2_newNode, worldT2_not_startable⟩
 
 end GnoVerif.C33
